@@ -457,7 +457,15 @@ def diff_heaps(want, wroots, got, groots):
     """differences between the specification's heap and the observed one: list of (aspect, oid, message)"""
     out = []
     if set(want) != set(got) or wroots != groots:
-        out.append(("sharing", 0, f"objects {sorted(got)} / variables {groots} instead of {sorted(want)} / {wroots}"))
+        # MORE objects than the specification predicts = the library shares less than the model assumes (a result got
+        # its own mesh / region object): no property forbids that, the history is merely not continued.  FEWER objects
+        # = the library hands out an object that something else refers to (how the aliasing patterns P2 / P3 arose).
+        nreg = lambda h: (sum(1 for r in h.values() if r["k"] == "region"), sum(1 for r in h.values() if r["k"] == "mesh"),
+                          sum(1 for r in h.values() if r["k"] == "field"))  # noqa: E731
+        w3, g3 = nreg(want), nreg(got)
+        less = set(wroots) == set(groots) and g3[2] == w3[2] and g3[0] >= w3[0] and g3[1] >= w3[1] and g3 != w3
+        out.append(("sharing-less" if less else "sharing", 0,
+                    f"objects {sorted(got)} / variables {groots} instead of {sorted(want)} / {wroots}"))
         return out
     for o in sorted(want):
         w, g = want[o], got[o]
